@@ -94,6 +94,12 @@ class Ctx:
     def canon(self, fi: FuncInfo, opts: Optional[CanonOptions] = None) -> tuple:
         return canon_function(fi, self.model, opts)
 
+    def effects(self):
+        if getattr(self, "_effects", None) is None:
+            from .effects import Effects
+            self._effects = Effects(self.model)
+        return self._effects
+
 
 def load_known_findings() -> dict:
     path = os.path.join(VERIF_DIR, "known_findings.json")
